@@ -197,7 +197,7 @@ _PURE_METHODS = {'lower': (str,), 'upper': (str,), 'strip': (str,), 'lstrip': (s
                  'startswith': (str,), 'endswith': (str,), 'replace': (str,), 'items': (dict,), 'keys': (dict,), 'values': (dict,),
                  'get': (dict,), 'union': (set, frozenset), 'intersection': (set, frozenset), 'difference': (set, frozenset),
                  'copy': (dict, set, list), 'index': (list, tuple, str), 'count': (list, tuple, str), 'bit_length': (int,),
-                 'encode': (str,), 'decode': (bytes,)}
+                 'encode': (str,), 'decode': (bytes,), 'format': (str,), 'zfill': (str,)}
 _CMPOPS = {ast.Eq: lambda a, b: a == b, ast.NotEq: lambda a, b: a != b, ast.Lt: lambda a, b: a < b, ast.LtE: lambda a, b: a <= b,
            ast.Gt: lambda a, b: a > b, ast.GtE: lambda a, b: a >= b, ast.In: lambda a, b: a in b, ast.NotIn: lambda a, b: a not in b,
            ast.Is: lambda a, b: a is b, ast.IsNot: lambda a, b: a is not b}
